@@ -34,6 +34,13 @@ TEXT["C18"] = {
     "design_ref": "DESIGN.md section 3, C18",
 }
 
+TEXT["C07"] = {
+    "technique": "property-based testing (rapid) + bounded exhaustive enumeration of expression trees; differential against an independent evaluator of the generated tree",
+    "text": "Well-typed expression trees are generated (random to depth 7; exhaustively all trees with up to 2 binary operators over 9 leaves with unary operators at every node, up to 3 binary operators over 4 leaves in the thorough tier), printed with minimal parentheses according to the stated precedence/associativity plus random spellings, spacing and redundant parentheses, rendered as {{ e }} and {% if e %}, and compared with an independent evaluator of the tree (int64 wrap-around, truncated division, float promotion, concatenation, short-circuit; division/modulo by zero must be an execution error and only then). Exploration-level assurance inside the stated fragment.",
+    "note": "Trusted: the tree evaluator and the minimal-parenthesis printer in harness/props/c07_test.go. Outside the fragment (see assumptions in the evidence file) nothing is asserted.",
+    "design_ref": "DESIGN.md section 3, C07",
+}
+
 PENDING_REASON = "check not built yet in this build phase (DESIGN.md section 3 describes the planned PBT check); will be claimed once its quick tier is silent on the unchanged tree and kills its mutants"
 
 
